@@ -28,7 +28,9 @@
 (*                 2 HUNG, 3 returned]                                     *)
 (* act = [op, tx, out, res]                                                *)
 (*   op  in Init BcastCall HRelease RbRelease MarkCall Mined Block Tick    *)
-(*          Stop; Mined(tx, out) = the rescan finds tx in a block, out =   *)
+(*          Stop CloseSub (the block subscription closes its Notifications  *)
+(*          channel: no clause mentions it - every clause goes on being    *)
+(*          judged afterwards); Mined(tx, out) = the rescan finds tx in a block, out =   *)
 (*          spend / pay / both / neither: why the rescan cares about it    *)
 (*   out = result the gate hands back to the code (HRelease / RbRelease):  *)
 (*         ok mempool xmempool | confirmed xconfirmed | invalid fee        *)
